@@ -58,7 +58,20 @@ FEATURES = ["plain", "scope", "record", "spawn", "nested", "missing-item", "spaw
 PLACES = ["same", "other-scope", "outside", "other-task"]
 
 
-ODD_ITEMS = [None, 0, False, "", (), StopAsyncIteration(), None, ValueError("item"), [], 0.0]
+class _Wildcard:
+    """an item that claims to equal everything (a matcher object)"""
+
+    def __eq__(self, other) -> bool:
+        return True
+
+    def __hash__(self) -> int:
+        return 3
+
+    def __repr__(self) -> str:
+        return "Wildcard()"
+
+
+ODD_ITEMS = [None, 0, False, "", _Wildcard(), (), StopAsyncIteration(), None, ValueError("item"), [], 0.0, MISSING]
 
 
 def programs(tier: str):
